@@ -62,6 +62,11 @@ CLAIMED = {
    note="Bounds: taxa<=2 (3), markers<=2 (3), ploidy 1 and 2; Yang only with one marker and two taxa (the square-root scaling times out beyond that); inverse for n<=2 on an arbitrary positive definite matrix (Sylvester assumed); exact reals; LAPACK eigenvalue routines outside.",
    technique="symbolic execution on z3-term arrays (symnp) + z3 (QF_NIRA/QF_NRA) identities and SOS certificates; contract stub for numpy.linalg.inv; replay on real numpy",
    design="2/C13"),
+   "C12": dict(
+   text="Bounded symbolic model checking of the real progeny-variance code (from_algmod/from_gmod of the two-, three-, four-way and dihybrid DH genetic variance, genic variance and progeny covariance classes, vmat/util closed forms, srange chunking): marker effects, allele codes (generalised to reals, 0/1 for the genic classes) and the recombination fraction of every distinct marker distance are symbolic; the reference is an exhaustive two-locus gamete enumeration of each crossing scheme with polynomial weights in r (built independently in the harness, selfing generations included) assembled over marker pairs, and z3 proves equality for every parent index tuple (repeated parents included), independence of the memory-chunk parameter, and the Haldane-based run on symbolic positions. Counterexamples are replayed on real numpy.",
+   note="Bounds: <=3 markers on <=2 chromosomes, 2-3 taxa (all index tuples), traits<=2, nself in {0,1,2} (3 thorough) plus the closed-form inf branch against 2r/(1+2r); pairwise-in-r identities (multi-locus consistency of the Haldane map is C02's composition law); exact reals.",
+   technique="symbolic execution on z3-term arrays (symnp) + z3 (QF_NRA, denominators cleared) against an exact polynomial gamete-enumeration oracle; replay on real numpy",
+   design="2/C12"),
 }
 NA = {}
 for pid in props:
